@@ -86,7 +86,7 @@ def gen_column(rng, n, label_vals, kind=None):
         rng.shuffle(col)
         return col, kind
     k = rng.randrange(2, 5) if kind == 'lowcard' else rng.randrange(5, max(6, n // 2 + 2))
-    vals = list({_word(rng, 1, 6) for _ in range(k)}) or ['x']
+    vals = sorted({_word(rng, 1, 6) for _ in range(k)}) or ['x']
     if rng.random() < 0.2:
         vals.append('')
     w = [rng.random() ** 2 + 0.05 for _ in vals]
